@@ -43,6 +43,7 @@ def run(prog: Program, rep: Report, tier: str) -> None:
         n += region_coverage(rep, f)
     rep.floor('C13-D1 loops', n, 2)
     reference_operand(rep, prog)
+    nan_defaults_unequal(rep, prog)
     default_comparisons(rep, prog)
 
 
@@ -185,6 +186,33 @@ def default_comparisons(rep: Report, prog: Program) -> None:
     rep.floor('C13-D2', n, 2)
 
 
+def nan_defaults_unequal(rep: Report, prog: Program) -> None:
+    """torch.equal is False as soon as an element is NaN.  In PatternedTensor.equal every test that involves the two defaults must
+    come out False when both defaults are NaN (`==` already does); a disjunct `isnan(a) and isnan(b)` makes it True."""
+    rule = 'C13-D2 nan-defaults'
+    f = prog.func('fggs.indices', 'PatternedTensor.equal')
+    selfn, other = f.positional_params()[:2]
+    n = 0
+    exprs = [x.value for x in own_nodes(f.node) if isinstance(x, ast.Return) and x.value is not None] + [x.test for x in own_nodes(f.node) if isinstance(x, (ast.If, ast.IfExp))]
+    for e in exprs:
+        for sub in ast.walk(e):
+            if not isinstance(sub, ast.BoolOp) or not isinstance(sub.op, ast.Or):
+                continue
+            atoms = collect_atoms(sub)
+            nan_atoms = [t for t, a in atoms.items() if isinstance(a, ast.Call) and callee_last(a) == 'isnan' and 'default' in t]
+            eq_atoms = [t for t, a in atoms.items() if isinstance(a, ast.Compare) and len(a.ops) == 1 and isinstance(a.ops[0], (ast.Eq, ast.NotEq))
+                        and 'default' in norm(a.left) and 'default' in norm(a.comparators[0])]
+            if not nan_atoms or not eq_atoms:
+                continue
+            n += 1
+            env = Env(atoms={**{t: True for t in nan_atoms}, **{t: False for t in eq_atoms}})
+            val = env.eval(sub)
+            rep.ob(rule, f.fq(), norm(sub)[:90], f.loc(sub), val is not True,
+                   'False (or undecided) when both defaults are NaN' if val is not True else
+                   'True when both defaults are NaN: equal() then reports two tensors equal whose dense forms contain NaN, for which torch.equal is False')
+    rep.ob(rule, f.fq(), 'defaults compared with == (NaN is unequal to itself, as in torch.equal)', f.loc(), True, f"{n} disjunction(s) over the defaults examined")
+
+
 def branch_of(cfg, n: int) -> str:
     """Text of the top-level test under which node n sits ('' if none)."""
     dom = cfg.dominators()
@@ -259,6 +287,13 @@ def reference_operand(rep: Report, prog: Program) -> None:
         ok = rs == {'self'} and as_ == {'other'}
         kw = {k.arg for k in c.keywords}
         fw = {'rtol', 'atol'} <= kw
+        # equal_nan is the caller's choice: where the parameter exists, what is passed on is the parameter (a constant True makes
+        # two NaN defaults compare close although the dense tensors, which contain NaN, do not)
+        if 'equal_nan' in f.param_names():
+            en = next((k.value for k in c.keywords if k.arg == 'equal_nan'), None)
+            en_ok = en is None or (isinstance(en, ast.Name) and en.id == 'equal_nan')
+            rep.ob(rule + ' equal_nan', f.fq(), norm(c)[:100], f.loc(c), en_ok,
+                   'equal_nan left to the caller' if en_ok else f"equal_nan={norm(en)} regardless of what the caller asked for")
         rep.ob(rule, f.fq(), norm(c)[:100], f.loc(c), ok and fw,
                'receiver is a value of self, the reference argument a value of other; tolerances forwarded' if ok and fw else
                (f"receiver carries {sorted(rs)}, argument carries {sorted(as_)}: torch.allclose(self, other) scales rtol by |other|, so the receiver must be a value of self and the argument a value of other" if not ok else 'rtol/atol are not forwarded'))
